@@ -32,6 +32,9 @@ Check(r, idx) ==
     \* reader stores into the replaced node afterwards (op sia-cmpgate: the reader's own lookup, before the deadline, is the one hit)
     \o (IF r.hang = 0 /\ r.sc.op = "sia.cmpgate" /\ (r.hits # 1 \/ r.misses # 1)
         THEN <<F(idx, "C20.compute_over_expired_entry_not_a_miss", <<r.hits, r.misses, r.sc>>)>> ELSE <<>>)
+    \* C17: the read buffer at quiescence holds no published element out of the consumer's reach (op rb-clear: readers parked between the
+    \* reservation of their slot and its publication, across an InvalidateAll and across a maintenance run)
+    \o (IF r.sc.op = "rb.clear" /\ (r.hang = 1 \/ r.stranded > 0) THEN <<F(idx, "C17.recorded_read_out_of_reach", <<r.stranded, r.hang, r.sc>>)>> ELSE <<>>)
     \* save / load with a target clock that moves between any two readings (op persist-step): "never" deadlines come back as "never"
     \o (IF r.sc.op = "persist.step" /\ (r.hang = 1 \/ r.loaded # 8 \/ r.badref > 0 \/ r.badexp > 0)
         THEN <<F(idx, "C19.never_deadline_not_restored", <<r.loaded, r.badref, r.badexp, r.sc>>)>> ELSE <<>>)
